@@ -310,6 +310,33 @@ def h_step(env, spec, n_qubits, op, arg=None, op2=None, arg2=None, sym=False, ca
         check_result_independent(env, c, out, op)
 
 
+def h_gate_alias(env):
+    """a Gate / Circuit keeps its own copy of the index lists it was given: the caller may reuse and modify them afterwards
+    (growing a list of controls, recycling a pair list) without reaching gates that were already built"""
+    from tangelo.linq import Gate, Circuit
+    tg, ct = [2], [0]
+    g = Gate("CRZ", tg, ct, 0.5)
+    c = Circuit([g], n_qubits=5)
+    c.add_gate(Gate("SWAP", tg + [3]))
+    pair = [1, 4]
+    c.add_gate(Gate("SWAP", pair))
+    before = CU.snapshot(c)
+    gt = CU.gate_tuple(g)
+    tg.append(1)
+    ct[0] = 2
+    pair[0] = 4
+    pair.append(0)
+    env.check_true(CU.gates_same([CU.gate_tuple(g)], [gt]) is None, "Gate: modifying the lists passed as target / control afterwards leaves the gate unchanged")
+    CU.check_unchanged(env, before, c, "Circuit: modifying the lists its gates were built from leaves the circuit unchanged")
+    check_invariant(env, c, "after the caller modified its own lists", width=5)
+    d = c + Circuit([Gate("X", [0])])
+    e = c.inverse()
+    f = c * 2
+    tg.append(3)
+    for nm, x, w in (("sum", d, 5), ("inverse", e, 5), ("repetition", f, 5)):
+        check_invariant(env, x, f"{nm} of that circuit", width=w)
+
+
 # ------------------------------------------------------------------ index validation (enumeration)
 def _expect_ok(name, tg, ct):
     import numpy as np
@@ -534,6 +561,7 @@ def shapes(tier, seed):
     add("canary/index/flipped", h_index, dict(cases=[("H", 1, None)], canary=True), canary=True)
     ks = [("H", (k,), None) for k in range(0, 6)] + [("CNOT", (0,), (k,)) for k in range(1, 6)] + [("CNOT", (k,), (0, 1)) for k in range(2, 6)] + \
          [("SWAP", (1, k), None) for k in range(2, 6)]
+    add("index/list-aliasing", h_gate_alias, dict())
     add("index/n_qubits", h_range, dict(ns=[1, 2, 3, 4], ks=[k for k in ks]))
     add("canary/index/n_qubits", h_range, dict(ns=[3], ks=[("H", (3,), None)], canary=True), canary=True)
     return out
